@@ -22,24 +22,23 @@ Open Scope nat_scope.
    Query routes ([kind_of]): QRecords (raw-record search: `*`, and whatever stands in front of a later
    stats command), QStats (first command `stats` without by-clause), QGroupBy (first command `stats ... by`).
 
-   FULL STATEMENT (property text): for every route, a query returns every block that was flushed before
-   it began exactly once.  It holds for QRecords and QStats (next two theorems); the QGroupBy route of
-   the code violates it (C11_groupby_lost_refuted, C11_groupby_doubled_refuted; known/C11.json) and is
-   proved under the guard "no hand-over step falls into the query" (C11_groupby_exactly_once_guarded). *)
+   The statement holds for EVERY route.  (The QGroupBy route of the code used to violate it — events of a
+   segment rotated between planning and reading were lost, events of a segment planned and read inside
+   the hand-over window were counted twice; repaired: the route re-tests IsSegKeyUnrotated and searches a
+   segment key once — C11_groupby_unprotected_refuted keeps the two witnesses.) *)
 
 (* A query returns every block that was flushed before the query began EXACTLY ONCE, for record
-   queries and statistics queries alike, whatever rotations, flushes and other queries interleave
+   queries, statistics queries and group-by queries alike, whatever rotations, flushes and other queries interleave
    with it, for any batching of the block list and any grouping of the accepted blocks. *)
 Theorem C11_handover_exactly_once :
   forall (nseg : nat) (batching grouping : list blk -> list (list blk)),
   (forall l x, In x (concat (batching l)) <-> In x l) ->
   (forall l x, count_pair x (concat (grouping l)) = count_pair x l) ->
   forall (kind_of : nat -> qkind) (pre post : list ev) (r s b : nat),
-  kind_of r <> QGroupBy ->
-  let y1 := run nseg true true batching grouping kind_of sys_init pre in
+  let y1 := run nseg true true true batching grouping kind_of sys_init pre in
   stage (rds y1 r) = RIdle ->
   s < nseg -> ph (segs y1 s) <> Absent -> b < nb (segs y1 s) ->
-  let y := run nseg true true batching grouping kind_of y1 (SnapU r :: post) in
+  let y := run nseg true true true batching grouping kind_of y1 (SnapU r :: post) in
   stage (rds y r) = RDone ->
   count_pair (s, b) (result (rds y r)) = 1.
 Proof. exact handover_exactly_once. Qed.
@@ -51,10 +50,9 @@ Theorem C11_handover_at_most_once :
   (forall l x, In x (concat (batching l)) <-> In x l) ->
   (forall l x, count_pair x (concat (grouping l)) = count_pair x l) ->
   forall (kind_of : nat -> qkind) (pre post : list ev) (r : nat) (x : nat * nat),
-  kind_of r <> QGroupBy ->
-  let y1 := run nseg true true batching grouping kind_of sys_init pre in
+  let y1 := run nseg true true true batching grouping kind_of sys_init pre in
   stage (rds y1 r) = RIdle ->
-  let y := run nseg true true batching grouping kind_of y1 (SnapU r :: post) in
+  let y := run nseg true true true batching grouping kind_of y1 (SnapU r :: post) in
   stage (rds y r) = RDone ->
   count_pair x (result (rds y r)) <= 1.
 Proof. exact handover_at_most_once. Qed.
@@ -65,11 +63,10 @@ Print Assumptions C11_handover_at_most_once.
    processors and beyond) and every number of blocks per segment. *)
 Theorem C11_handover_exactly_once_for_every_gomaxprocs :
   forall (nseg P : nat) (kind_of : nat -> qkind) (pre post : list ev) (r s b : nat),
-  kind_of r <> QGroupBy ->
-  let y1 := run nseg true true one_batch (chunks P) kind_of sys_init pre in
+  let y1 := run nseg true true true one_batch (chunks P) kind_of sys_init pre in
   stage (rds y1 r) = RIdle ->
   s < nseg -> ph (segs y1 s) <> Absent -> b < nb (segs y1 s) ->
-  let y := run nseg true true one_batch (chunks P) kind_of y1 (SnapU r :: post) in
+  let y := run nseg true true true one_batch (chunks P) kind_of y1 (SnapU r :: post) in
   stage (rds y r) = RDone ->
   count_pair (s, b) (result (rds y r)) = 1.
 Proof. exact handover_exactly_once_gomaxprocs. Qed.
@@ -92,7 +89,7 @@ Print Assumptions C11_block_list_deduplicated_for_any_batching.
    of 2 blocks: both blocks are read twice; groups of 4 blocks hide it (block map of the group), and
    so do plans made before or after the window — which is why sequential tests and plain `*` pass. *)
 Theorem C11_filter_then_record_refuted :
-  let ans ib P evs b := count_pair (0, b) (result (rds (run 1 true ib one_batch (chunks P) (fun _ => QRecords) sys_init evs) 0)) in
+  let ans ib P evs b := count_pair (0, b) (result (rds (run 1 true ib true one_batch (chunks P) (fun _ => QRecords) sys_init evs) 0)) in
   (ans false 2 window_plan 0 = 2 /\ ans false 2 window_plan 1 = 2) /\
   (ans false 4 window_plan 0 = 1 /\ ans false 4 window_plan 1 = 1) /\
   (ans true 2 window_plan 0 = 1 /\ ans true 2 window_plan 1 = 1) /\
@@ -101,55 +98,29 @@ Theorem C11_filter_then_record_refuted :
 Proof. exact two_pass_filter_refuted. Qed.
 Print Assumptions C11_filter_then_record_refuted.
 
-(* The group-by route as coded: guarded variant (guard: the segment is not inside its hand-over window
-   when the query begins and no AddRot/DelUnrot of any segment happens while the query runs) ... *)
-Theorem C11_groupby_exactly_once_guarded :
-  forall (nseg : nat) (batching grouping : list blk -> list (list blk))
-         (kind_of : nat -> qkind) (pre post : list ev) (r s b : nat),
-  kind_of r = QGroupBy ->
-  let y1 := run nseg true true batching grouping kind_of sys_init pre in
-  stage (rds y1 r) = RIdle ->
-  s < nseg -> ph (segs y1 s) <> Absent -> b < nb (segs y1 s) ->
-  ph (segs y1 s) <> Both -> forallb (fun e => negb (is_handover_ev e)) post = true ->
-  let y := run nseg true true batching grouping kind_of y1 (SnapU r :: post) in
-  stage (rds y r) = RDone ->
-  count_pair (s, b) (result (rds y r)) = 1.
-Proof. exact groupby_exactly_once_guarded. Qed.
-Print Assumptions C11_groupby_exactly_once_guarded.
-
-(* ... and the two refutations of the full statement for this route (both reproduced on the real code by
-   the forced schedules: wrrwwwr and wrwrrww) *)
-Theorem C11_groupby_lost_refuted :
-  exists evs, let y := run 1 true true one_batch (chunks 16) (fun _ => QGroupBy) sys_init evs in
-    stage (rds y 0) = RDone /\ count_pair (0, 0) (result (rds y 0)) = 0.
-Proof. exact groupby_lost_refuted. Qed.
-Print Assumptions C11_groupby_lost_refuted.
-
-Theorem C11_groupby_doubled_refuted :
-  exists evs, let y := run 1 true true one_batch (chunks 16) (fun _ => QGroupBy) sys_init evs in
-    stage (rds y 0) = RDone /\ count_pair (0, 0) (result (rds y 0)) = 2.
-Proof. exact groupby_doubled_refuted. Qed.
-Print Assumptions C11_groupby_doubled_refuted.
-
-(* the guard is satisfiable (a query over an open and a rotated segment, with a flush in between) *)
-Example C11_groupby_guard_nonvacuous :
-  let y := run 2 true true one_batch (chunks 16) (fun _ => QGroupBy) sys_init
-             [Create 0; Flush 0; AddRot 0; DelUnrot 0; Create 1; Flush 1; SnapU 0; Flush 1; SnapR 0; Resolve 0] in
-  stage (rds y 0) = RDone /\ count_pair (0, 0) (result (rds y 0)) = 1 /\ count_pair (1, 0) (result (rds y 0)) = 1.
-Proof. exact groupby_guard_nonvacuous. Qed.
+(* The group-by route before its repair (no re-test of IsSegKeyUnrotated for an unrotated request, no
+   de-duplication of a segment key listed both ways) violated the property; the witnesses are the two
+   forced schedules wrrwwwr (events lost) and wrwrrww (events twice); the repaired route answers 1. *)
+Theorem C11_groupby_unprotected_refuted :
+  let ans prot evs := (let y := run 1 true true prot one_batch (chunks 16) (fun _ => QGroupBy) sys_init evs in
+                       (stage (rds y 0), count_pair (0, 0) (result (rds y 0)))) in
+  ans false groupby_lost_sched = (RDone, 0) /\ ans false groupby_doubled_sched = (RDone, 2) /\
+  ans true groupby_lost_sched = (RDone, 1) /\ ans true groupby_doubled_sched = (RDone, 1).
+Proof. exact groupby_unprotected_refuted. Qed.
+Print Assumptions C11_groupby_unprotected_refuted.
 
 (* Queries never change what is stored: after any interleaving the segment table is the one the
    writers' events alone produce (quiescent state = sequential execution of the same ingests). *)
 Theorem C11_queries_transparent :
-  forall nseg sd ib bt gp kind_of evs y s,
-  segs (run nseg sd ib bt gp kind_of y evs) s = segs (run nseg sd ib bt gp kind_of y (filter is_writer_ev evs)) s.
+  forall nseg sd ib gbp bt gp kind_of evs y s,
+  segs (run nseg sd ib gbp bt gp kind_of y evs) s = segs (run nseg sd ib gbp bt gp kind_of y (filter is_writer_ev evs)) s.
 Proof. exact readers_transparent. Qed.
 Print Assumptions C11_queries_transparent.
 
 (* The statistics path before fix 08e84b8 (no de-duplication of a segment present in both
    snapshots) violates the property: witness interleaving, the block is counted twice. *)
 Theorem C11_stats_double_count_refuted :
-  exists evs, let y := run 1 false true one_batch (chunks 16) (fun _ => QStats) sys_init evs in
+  exists evs, let y := run 1 false true true one_batch (chunks 16) (fun _ => QStats) sys_init evs in
     stage (rds y 0) = RDone /\ count_pair (0, 0) (result (rds y 0)) = 2.
 Proof. exact stats_double_count_refuted. Qed.
 Print Assumptions C11_stats_double_count_refuted.
